@@ -224,12 +224,17 @@ Definition compile (d : desc) (g : graph) : res compiled :=
                             | _ => Ok None
                             end) (nodes_of_type g NRouter);
   (* compile_ids for network interfaces happens per interface (compile_ni); its errors come first *)
-  do _ <- mapM (fun ni => match find_ep d (n_desc ni) with
-                          | Some e =>
-                              let ep_node := match n_arr ni with Some idx => full_name (ep_name e) idx | None => ep_name e end in
-                              do uid <- uid_of g ep_node; ni_id g d ni uid
-                          | None => Err "network interface without descriptor"
-                          end) (nodes_of_type g NNi);
+  do ids <- mapM (fun ni => match find_ep d (n_desc ni) with
+                            | Some e =>
+                                let ep_node := match n_arr ni with Some idx => full_name (ep_name e) idx | None => ep_name e end in
+                                do uid <- uid_of g ep_node; ni_id g d ni uid
+                            | None => Err "network interface without descriptor"
+                            end) (nodes_of_type g NNi);
+  (* under XY the coordinate is the routing identity: two interfaces with one coordinate are rejected *)
+  do _ <- match d_algo d with
+          | XY => if nodupb idv_eqb ids then Ok tt else Err "ValueError: two endpoints have the same XY coordinate"
+          | _ => Ok tt
+          end;
   (* compile_links: only axi / narrow-wide without virtual channels *)
   do dirs <- compile_endpoints d g;
   do nis <- mapM (compile_ni d g) (nodes_of_type g NNi);
